@@ -194,4 +194,5 @@ def _gk_ordered(draw, ka, recipe):
     K = draw(GB.polyhedron())
     g = draw(GB.polygon_vs_polyhedron(K, recipe))
     assume(g is not None and len(g[1]) >= 3)
+    assume(GB.max_coord(g) <= 40)
     return (g, K, recipe) if ka == "G" else (K, g, recipe)
